@@ -1,0 +1,17 @@
+//go:build !verif
+
+package verifhook
+
+// Enabled reports whether the verification hooks are compiled in.
+const Enabled = false
+
+// Order lets a simulator impose an order on a slice that was built by
+// iterating a map. No-op without the verif tag.
+func Order(site string, n int, key func(i int) string, swap func(i, j int)) {}
+
+// Yield marks a point between two internal statements at which a simulator
+// may hold the calling goroutine. No-op without the verif tag.
+func Yield(site string, detail string) {}
+
+// Observe reports an internal event to a simulator. No-op without the verif tag.
+func Observe(site string, detail string, obj any) {}
